@@ -48,6 +48,12 @@ NEW_CALLS = ("SubsetGlyphs::new_id", "Iterator::position", "::len")
 def space_of(b, term, depth=0):
     """'OLD' | 'NEW' | 'MIXED' | None from the provenance of an index operand"""
     old = new = False
+    t0 = sym.strip(term)
+    while t0[0] == "cast":
+        t0 = sym.strip(t0[4])
+    if t0[0] == "call" and (t0[4] or t0[1] or "").endswith("::len"):
+        # the number of glyphs emitted so far is the next NEW id (whatever the vector holds)
+        return "NEW"
     for x in sym.walk(term):
         if x[0] == "call":
             nm = (x[4] or x[1] or "")
@@ -226,7 +232,66 @@ def t07_comp(run, fx):
         run.fail(rule, "composite-dispatch", "Glyph::read does not dispatch on the sign of numberOfContours", "%s:%s" % (g.file, g.line))
 
 
+def t07_subr(run, fx):
+    rule = "T07-SUBR"
+    run.rule(rule, "rebuild_local_subr_indices looks every glyph of its used-subrs map up in cid.fd_select: at each call site the map's keys and the "
+                   "FDSelect must be in the same id space (a source FDSelect is indexed by old ids, an FDSelect assembled for the output by new ids)")
+    sites = []
+    for b in fx.bodies:
+        for bi, t in b.calls():
+            if callee_is(t, "cff::subset::rebuild_local_subr_indices"):
+                sites.append((b, bi, t))
+    if not sites:
+        return run.anchor_missing(rule, "calls to rebuild_local_subr_indices")
+    for b, bi, t in sites:
+        prov = sym.Prov(b)
+        # FDSelect space: a CIDData literal built in this function holds the output FDSelect
+        cid_t = sym.strip(prov.op(t["args"][0]))
+        built_here = any(x[0] == "agg" and x[1] == "cff::CIDData" for x in sym.walk(cid_t))
+        if not built_here:
+            # the argument may be a reference to a multi-definition-free local assigned from the literal
+            for x in sym.walk(cid_t):
+                if x[0] == "local":
+                    for d in b.defs().get(x[1], []):
+                        if d[2] == "assign" and d[3]["rv"]["k"] == "agg" and d[3]["rv"].get("adt") == "cff::CIDData":
+                            built_here = True
+        fd_space = "NEW" if built_here else "OLD"
+        # key space of the map: insert(map, key, _) in this function on the same local
+        m = t["args"][1]
+        ml = m["p"]["l"] if m["k"] in ("copy", "move") else None
+        holders = {ml}
+        changed = True
+        while changed:
+            changed = False
+            for bj, blk in enumerate(b.blocks):
+                for s_ in blk["s"]:
+                    if s_["k"] == "assign" and not s_["p"]["p"] and s_["rv"]["k"] in ("use", "ref"):
+                        src = s_["rv"].get("op", {}).get("p") if s_["rv"]["k"] == "use" else s_["rv"]["p"]
+                        if src and not src["p"]:
+                            if s_["p"]["l"] in holders and src["l"] not in holders:
+                                holders.add(src["l"]); changed = True
+                            if src["l"] in holders and s_["p"]["l"] not in holders:
+                                holders.add(s_["p"]["l"]); changed = True
+        spaces = set()
+        for fb in fx.family(b):
+            fprov = sym.Prov(fb)
+            for bj, t2 in fb.calls():
+                if callee_is(t2, "HashMap::<K, V, S>::insert", "::insert") and len(t2["args"]) == 3 and "HashMap" in (t2["callee"].get("path") or ""):
+                    a0 = t2["args"][0]
+                    if fb is b and a0["k"] in ("copy", "move") and a0["p"]["l"] in holders:
+                        spaces.add(space_of(fb, fprov.op(t2["args"][1])))
+        key_space = spaces.pop() if len(spaces) == 1 else ("MIXED" if spaces else None)
+        where = "%s" % b.root.split("::")[-1]
+        if key_space == fd_space:
+            run.ok(rule, "%s: used-subrs map keyed by %s ids, FDSelect indexed by %s ids" % (where, key_space, fd_space))
+        else:
+            run.fail(rule, "subr-idspace:%s" % b.root, "%s: the used-subrs map is keyed by %s glyph ids but the FDSelect it is looked up in is indexed by %s ids: local subroutines are attributed to the wrong Font DICT (or BadIndex)" % (
+                b.path, key_space, fd_space), b.loc(t), ledger="idspace")
+
+
 def check(run, fx, tier, floors=True):
+    if floors or any(callee_is(t, "cff::subset::rebuild_local_subr_indices") for b in fx.bodies for _, t in b.calls()):
+        t07_subr(run, fx)
     t07_id(run, fx, floors)
     t07_map(run, fx)
     if floors or fx.body("tables::glyf::GlyfRecord::<'a>::is_composite") is not None:
